@@ -829,7 +829,7 @@ func sources(all bool) []*source {
 
 func Run(r *mc.Run) {
 	r.Level = "model_checking"
-	r.Rule = "BFS to a fixpoint over every schedule of the real trie.Sync/state.NewStateSync on each source: Missing(k) for every k ending at a priority-group boundary of the fetch queue, delivery of any wanted node (handed out or not) through trieSync.processNodeData, duplicate/unrequested/bit-flipped/truncated/foreign deliveries, trieSync.commit into a write-logging database, interrupt (new Sync on the database as it is), and on source families (two roots: the state a block later, one sharing account changed) pivot (new Sync for the NEWER root on the database as it is, from every state incl. the completed one; completion is then compared with the newer root: every trie node, code and delegations blob); every distinct write prefix (batch boundaries and positions inside a batch) is checked for closure over trie children, storage roots, code and delegations blobs, and resumed honestly for the root being synced and for every newer root of the family; states de-duplicated on the full scheduler state (root being synced, requests with dependency counts and parents, membatch order, fetch-queue set, handed-out set, database key set); distinct = distinct such states; a case is non-trivial by construction (every state differs in scheduler or database content)"
+	r.Rule = "BFS to a fixpoint over every schedule of the real trie.Sync/state.NewStateSync on each source: Missing(k) for every k ending at a priority-group boundary of the fetch queue, delivery of any wanted node (handed out or not) through trieSync.processNodeData, duplicate/unrequested/bit-flipped/truncated/foreign deliveries, trieSync.commit into a write-logging database, interrupt (new Sync on the database as it is), and on source families (two roots: the state a block later, one sharing account changed) pivot (new Sync for the NEWER root on the database as it is, from every state incl. the completed one; completion is then compared with the newer root: every trie node, code and delegations blob); every distinct write prefix (batch boundaries and positions inside a batch) is checked for closure over trie children, storage roots, code and delegations blobs, and resumed honestly for the root being synced and for every newer root of the family; states de-duplicated on the full scheduler state (root being synced, requests with dependency counts and parents, membatch order, fetch-queue set, handed-out set, database key set); distinct = distinct such states; a case is non-trivial by construction (every state differs in scheduler or database content).  PART 2 (fault enumeration on the goroutine layer): the real trieFetcher / runTrieSync / trieSync.loop / commit / Wait / Cancel run a whole sync of every source (state sources as syncState does: KindState + state.NewStateSync; plain ones as commonSyncTrie) and of a wide plain trie of 81 nodes / 2.5 ideal batch sizes (the only one whose loop flushes while requests are pending) against one honest in-process peer delivering through Downloader.DeliverNodeData, with MaxTrieNodeFetch in {384, 2} (wide trie: 8; thorough: {384,3,2,1} and {16,8,4}), on a fault-injecting database: one run per fault point, for EVERY database write operation k = 1..N of the fault-free run (Put on the database, Put into a batch, batch Write): the k-th fails once / the k-th and all later ones fail / trieSync.Cancel() at it / Downloader.cancel() at it, and for every node-data request j = 1..J: trieSync.Cancel() / Downloader.cancel() when it reaches the peer (unanswered; after a cancel the peer is silent so that exactly one select case is ready); oracle: Wait() is nil only if the destination holds exactly the source (part 1's comparison incl. the real readers), a non-nil result or Crit leaves a closed, honestly resumable prefix, a fault-free run returns nil, no run exceeds 30 s"
 	if r.Quick() {
 		r.SetBudget(150e9)
 	} else {
@@ -838,6 +838,10 @@ func Run(r *mc.Run) {
 	r.Assume("deliveries reach trie.Sync only through the downloader's processNodeData (hash computed from the bytes), as in production; Sync.Process called with a caller-chosen hash is outside the property")
 	r.Assume("pivot moves: forward only, at most once per explored execution (families have two roots), the older root's nodes stay in the database")
 	r.Assume("crash model: LevelDB - a batch is atomic, the write log is prefix-closed; positions inside a batch are checked too and reported under a separate signature")
+	r.Assume("part 2 (goroutine layer): one honest peer that answers every request completely and in request order; database faults are clean (a failed batch Write writes nothing, a failed Put does not reach its batch) and only writes fail; a panic on one of the downloader's own goroutines is not caught (it ends the check process with a stack trace); logging.Crit stands for the process exit it performs; source code-equals-storage-node is left to part 1 (its completion is wrong without any fault: known finding)")
+	// part 2 first: it is short and bounded, and must not depend on what part 1
+	// leaves of the time budget
+	exploreLoop(r)
 	var desc []string
 	total := 0
 	for _, src := range sources(!r.Quick() || os.Getenv("C19_ALL") != "") {
@@ -858,6 +862,10 @@ func Run(r *mc.Run) {
 }
 
 func Replay(r *mc.Run, v *mc.Violation) {
+	if strings.HasPrefix(v.System, loopSysPrefix) {
+		replayLoop(r, v)
+		return
+	}
 	for _, src := range sources(true) {
 		if "triesync-"+src.name != v.System {
 			continue
